@@ -450,6 +450,30 @@ silent('s-tok9-closer-reversed', ['C02', 'C09'], 'the closer names its loop vari
        (TOK, "    for fstring_stack_index, node in enumerate(fstring_stack):\n        # Only the tokenizer's own whitespace may end up in a prefix.\n        lstripped_string = string.lstrip(' \\f\\t')\n        len_lstrip = len(string) - len(lstripped_string)\n        if lstripped_string.startswith(node.quote):",
         "    for i, fnode in enumerate(fstring_stack):\n        # Only the tokenizer's own whitespace may end up in a prefix.\n        lstripped_string = string.lstrip(' \\f\\t')\n        len_lstrip = len(string) - len(lstripped_string)\n        node = fnode\n        fstring_stack_index = i\n        if lstripped_string.startswith(fnode.quote):"))
 
+# GEN-5 EBNF -> NFA fragments
+GP = 'parso/pgen2/grammar_parser.py'
+fire('gen5-alt-joins-on-first-end', ['C08'], ['GEN-5'], 'alternatives are joined on the end state of the first alternative (rt4-C08)',
+     (GP, "            zz = NFAState(self._current_rule_name)\n", "            zz = z\n"))
+fire('gen5-alt-shares-start', ['C08'], ['GEN-5'], 'alternatives start in the start state of the first alternative',
+     (GP, "            aa = NFAState(self._current_rule_name)\n", "            aa = a\n"))
+fire('gen5-star-is-plus', ['C08'], ['GEN-5'], 'X* returns (a, z): at least one repetition is required',
+     (GP, "                return a, a\n", "                return a, z\n"))
+fire('gen5-optional-no-bypass', ['C08'], ['GEN-5'], '[X] lacks the epsilon arc around X',
+     (GP, "            a.add_arc(z)\n            return a, z", "            return a, z"))
+fire('gen5-plus-wrong-direction', ['C08'], ['GEN-5'], 'the repetition arc of X+ / X* points forwards',
+     (GP, "            z.add_arc(a)\n", "            a.add_arc(z)\n"))
+fire('gen5-items-chain-from-start', ['C08'], ['GEN-5'], 'the next item is chained to the start of the sequence instead of its end',
+     (GP, "            b.add_arc(c)\n", "            a.add_arc(c)\n"))
+fire('gen5-group-optional', ['C08'], ['GEN-5'], '(X) is treated like [X]',
+     (GP, "            self._expect(PythonTokenTypes.OP, ')')\n            return a, z", "            self._expect(PythonTokenTypes.OP, ')')\n            a.add_arc(z)\n            return a, z"))
+silent('s-gen5-test-order', ['C08'], 'the repetition operators are tested in another order',
+       (GP, "            if value == \"+\":\n                return a, z\n            else:\n                # The end state is the same as the beginning, nothing must\n                # change.\n                return a, a",
+        "            if value == \"*\":\n                return a, a\n            return a, z"))
+silent('s-gen5-star-fresh-states', ['C08'], 'X* built with two fresh states and four epsilon arcs (textbook Thompson)',
+       (GP, "                return a, a\n", "                s = NFAState(self._current_rule_name)\n                e = NFAState(self._current_rule_name)\n                s.add_arc(a)\n                s.add_arc(e)\n                z.add_arc(e)\n                return s, e\n"))
+silent('s-gen5-alt-always-fresh', ['C08'], 'a single alternative also gets fresh start and end states',
+       (GP, "        if self.value != \"|\":\n            return a, z\n        else:\n", "        if False:\n            return a, z\n        else:\n"))
+
 # TOK-3 typestate
 fire('tok3-comment-drops-prefix', ['C01', 'C09'], ['TOK-3'], 'a comment inside brackets replaces the pending prefix instead of extending it',
      (TOK, "                else:\n                    additional_prefix = prefix + token\n            elif token in triple_quoted:", "                else:\n                    additional_prefix = token\n            elif token in triple_quoted:"))
